@@ -678,8 +678,8 @@ def run(ctx):
                   (["pil"], hh[::6], widths[-1:], heights[-1:], ry1, rec3, ["none"], 3),
                   (["image"], hshare, widths[-1:], heights[-1:], refy[:1], [(0, 0)], ["alias", "tail", "head"], 4),
                   # the WCS object edited in place between calls (2 calls + 3 edits = 5 actions)
-                  (["image", "desc"], hshare, widths[-1:], heights[-1:], refy[:1], [(0, 0)], ["none"], 5),
-                  (["pil"], hh[::6], widths[-1:], heights[-1:], refy[:1], [(0, 0)], ["none"], 6)]
+                  (["image", "desc"], hshare[::2] if ctx.quick else hshare, widths[-1:], heights[-1:], refy[:1], [(0, 0)], ["none"], 5),
+                  (["pil"], hh[5:6] if ctx.quick else hh[::6], widths[-1:], heights[-1:], refy[:1], [(0, 0)], ["none"], 6)]
     for kinds, hd, ws, hs, ry, recy, peers, nact in extra_runs:
         edits = sorted(EDITS) if nact >= 5 else []
         r = ctx.tlc("MCParity", extra={"MCParity.tla": mc_module(kinds, ws, hs, hd, refx[:1], ry, H2, recy, peers, edits)},
